@@ -34,9 +34,15 @@ META = dict(
 META["text"] += ' R2 also: every reader of the format stores tokens verbatim (a case-folded token may be compared, not stored); grouping records with itertools.groupby on unsorted input is refuted.'
 META["text"] += ' R1 also: the ballot predicates keep no state between calls.'
 META["text"] += ' R5 also: the assorter mean is over the cards that carry the contest (= C02.R5).'
+META["text"] += ' (R7, N, frame condition on arguments) generator and audit read the same ballots: neither side edits the rankings it is shown: every function in scope changes the objects it is handed only in the ways confirmed for it (aud.ARG_EFFECTS); references are followed through aliases, elements, attributes, loop variables, .get/.items/.values and np.asarray, resolved by the bindings that reach the use.'
 
 
 def run(chk):
+    from .. import aud as _aud8
+    _aud8.argument_effects(chk, 'C14.R7', 'shangrla/raire/raire_utils.py', 'generator and audit read the same ballots: neither side edits the rankings it is shown', only=None)
+    _aud8.argument_effects(chk, 'C14.R7', 'shangrla/raire/raire.py', 'generator and audit read the same ballots: neither side edits the rankings it is shown', only=None)
+    _aud8.argument_effects(chk, 'C14.R7', 'shangrla/raire/simp_assertions.py', 'generator and audit read the same ballots: neither side edits the rankings it is shown', only=None)
+    _aud8.argument_effects(chk, 'C14.R7', 'shangrla/core/Audit.py', 'generator and audit read the same ballots: neither side edits the rankings it is shown', only=lambda q: q.startswith('CVR.'))
     chk.explain("R1 comparison-only lint over the 9 rank-handling predicates; R2 rank base of the two readers and of the first-preference / "
                 "unranked tests; R3 NEB loser tables equal; R4 NEN loop skeletons; R5 assorter combination; R6 identifier and recount (C04).")
     chk.trust("a predicate that uses ranks only in comparisons depends only on the order type of the ranking", "symx decision tables")
